@@ -106,7 +106,26 @@ func TestDrive(t *testing.T) {
 			for i, n := 0, 3+rng.Intn(8); i < n; i++ {
 				a := addrs[rng.Intn(len(addrs))]
 				nops++
-				switch rng.Intn(10) {
+				switch x := rng.Intn(11); x {
+				case 10:
+					// the save is made to fail (the configuration directory is, for a moment, a regular file), then the
+					// same Put is issued again through the same store: it must be written this time
+					c := creds[rng.Intn(len(creds)-2)] // (valid user names only)
+					sub := filepath.Dir(path)
+					moved := false
+					if _, serr := os.Stat(sub); serr == nil {
+						os.Rename(sub, sub+".away")
+						moved = true
+					}
+					os.WriteFile(sub, []byte("not a directory"), 0o644)
+					first := st.Put(ctx, a, c)
+					os.Remove(sub)
+					if moved {
+						os.Rename(sub+".away", sub)
+					}
+					err := st.Put(ctx, a, c)
+					tr.Emit(map[string]any{"e": "op", "op": "putretry", "addr": a, "cred": cj(c), "userchars": vh.Chars(c.Username), "first": class(first), "res": class(err)})
+					written = written || err == nil
 				case 0, 1, 2, 3:
 					c := creds[rng.Intn(len(creds))]
 					err := st.Put(ctx, a, c)
